@@ -12,13 +12,35 @@ Proved for all inputs: the copy of a node gets a FRESH identity (the requested i
 parent, keeps element name, type and comment and has no local file set (`C13_copy_head`); values that are not
 enumeration items are never dropped by the version filter (`C13_non_enum_values_kept`); a copy that is refused
 leaves the world — in particular the source — unchanged (`C13_refused_copy_no_effect`).
-Partial: content equality of the whole subtree, registration of nested identifiables/references and
-independence after later edits are checked by the correspondence run on `copy` histories (new ids, dumps) and
-by the direct oracle on the real library (serialization of copy vs source, lookups, edits of either side);
-`duplicate()` by the oracle only.
+The WHOLE SUBTREE (`Lemmas/DeepCopy.lean`), for every specification, every tree, every depth:
+* `C13_copy_is_fresh_and_wellformed`: the ids of the copy are exactly `nid, nid+1, …` in document order (pairwise different,
+  all new), parent fields agree with the structure, no element of the copy has a file set of its own;
+* `C13_same_version_copy_is_identical` ("content identical to the source"): if everything in the source is permitted in the
+  target version (`AllCompat`: every attribute known, in the version, value compatible; every text compatible; every
+  sub-element found by the version's lookup — recursively), the copy succeeds and equals the source up to identities, parent
+  fields and file sets (`Items.shape`);
+* `C13_cross_version_copy_omits_exactly` ("omits exactly the parts not permitted there"): in general the copy equals, up to
+  identities, the specification-level filter `compatFilter` — written without ids from the tables alone — and fails exactly
+  when the filter fails (a required attribute is not permitted); `C13_copy_still_permitted`: everything in the copy is
+  permitted in the target version (relative to the element types the copy carries — the library keeps the SOURCE's types,
+  known findings c07:copy-*-keeps-element-type-*);
+* `C13_fuel_is_enough`: the fuel `opCopy` passes never truncates (`depth < size`);
+* `C13_source_unchanged`: after a successful copy the source element with its whole content is still in its tree, every other
+  model is untouched (`opCopy_frame` in the lemma file), the tree stays well-formed (`C13_copy_keeps_tree`);
+* `C13_copied_identifiables_and_references_findable`: in a world with exact index / referrer lists, after a successful copy
+  whose paths are new (`CopyPathsOk`; it holds by itself for a same-version copy of a named element, `C13_same_version_copy_keeps_index_exact`)
+  every named element of the copy is found under its path below the destination and every reference of the copy is listed
+  under its text; the new index is EXACTLY the old one followed by the entries of the copy (`C13_copy_index_exact`).
+  WITHOUT `CopyPathsOk` the statement is false (`C13_witness_unnamed_copy_collides`: copying an element without item name
+  whose named children collide with existing siblings overwrites an index entry — the known finding
+  c04:container-move-copy-collision, here with a Lean witness).
+Partial: independence after later edits and `duplicate()` are checked by the correspondence run on `copy` histories (new
+ids, dumps) and by the direct oracle on the real library.
 -/
 import AutosarVerif.Lemmas.Files
 import AutosarVerif.Lemmas.WorldOps
+import AutosarVerif.Lemmas.DeepCopy
+import AutosarVerif.Lemmas.DeepCopyWitness
 
 namespace AV.C13
 open AV.W
@@ -33,6 +55,77 @@ theorem C13_non_enum_values_kept (v : CDv) (sp : CSpec) (ver : Nat) (h : ∀ ite
 
 theorem C13_refused_copy_no_effect (S : Spec) (V : Env) (w : World) (p x : Nat) (pos : Option Nat) :
     (opCopy S V w p x pos).2 = .err → (opCopy S V w p x pos).1 = w := opCopy_err_frame S V w p x pos
+
+theorem C13_copy_is_fresh_and_wellformed (S : Spec) (fuel : Nat) (h : Hdr) (kids : Items) (ver : Nat) (parent : PRef) (nid : Nat)
+    (h' : Hdr) (k' : Items) (n' : Nat) (hc : deepCopy S fuel h kids ver parent nid = some (h', k', n')) :
+    (Items.elem h' k' .nil).ids = List.range' nid (n' - nid) ∧ nid < n' ∧ (Items.elem h' k' .nil).ids.Nodup ∧
+    (∀ i ∈ (Items.elem h' k' .nil).ids, nid ≤ i ∧ i < n') ∧ h'.id = nid ∧ k'.wf (.elem nid) ∧
+    (Items.elem h' k' .nil).wf parent ∧ ∀ hd ∈ (Items.elem h' k' .nil).hdrs, hd.files = [] :=
+  deepCopy_ids S fuel h kids ver parent nid h' k' n' hc
+
+theorem C13_same_version_copy_is_identical (S : Spec) (h : Hdr) (kids : Items) (ver : Nat) (parent : PRef) (nid : Nat)
+    (hc : AllCompat S ver h kids) :
+    ∃ h' k' n', deepCopy S (kids.size + 2) h kids ver parent nid = some (h', k', n') ∧
+      Items.shape (.elem h' k' .nil) = Items.shape (.elem h kids .nil) :=
+  deepCopy_faithful_size S h kids ver parent nid hc
+
+theorem C13_cross_version_copy_omits_exactly (S : Spec) (fuel : Nat) (h : Hdr) (kids : Items) (ver : Nat) (parent : PRef) (nid : Nat) :
+    (∀ h' k' n', deepCopy S fuel h kids ver parent nid = some (h', k', n') →
+      ∃ fh fk, compatFilter S ver fuel h kids = some (fh, fk) ∧ Items.shape (.elem h' k' .nil) = Items.shape (.elem fh fk .nil)) ∧
+    (deepCopy S fuel h kids ver parent nid = none ↔ compatFilter S ver fuel h kids = none) :=
+  ⟨fun h' k' n' hc => deepCopy_shape S fuel h kids ver parent nid h' k' n' hc, deepCopy_none_iff S fuel h kids ver parent nid⟩
+
+/-- the fuelled filter is the structural one -/
+theorem C13_filter_is_structural (S : Spec) (fuel : Nat) (h : Hdr) (kids : Items) (ver : Nat) (hf : kids.depth < fuel) :
+    compatFilter S ver fuel h kids = compatFilterT S ver h kids := compatFilter_eq_T S fuel h kids ver hf
+
+theorem C13_copy_still_permitted (S : Spec) (fuel : Nat) (h : Hdr) (kids : Items) (ver : Nat) (parent : PRef) (nid : Nat)
+    (h' : Hdr) (k' : Items) (n' : Nat) (hf : kids.depth < fuel) (hc : deepCopy S fuel h kids ver parent nid = some (h', k', n')) :
+    AllCompat S ver h' k' := deepCopy_allCompat S fuel h kids ver parent nid h' k' n' hf hc
+
+theorem C13_fuel_is_enough (S : Spec) (fuel : Nat) (h : Hdr) (kids : Items) (ver : Nat) (parent : PRef) (nid : Nat)
+    (hf : kids.size + 2 ≤ fuel) :
+    deepCopy S fuel h kids ver parent nid = deepCopy S (kids.size + 2) h kids ver parent nid :=
+  deepCopy_fuel_size S fuel h kids ver parent nid hf
+
+theorem C13_source_unchanged (S : Spec) (V : Env) (w : World) (p x : Nat) (pos : Option Nat) (hok : (opCopy S V w p x pos).2 ≠ .err)
+    (kx : Nat) (cx : List (Hdr × Items)) (hx : locate w x = some (kx, cx)) (hnd : ∀ m ∈ w.models, m.rootItems.ids.Nodup) :
+    hdrOf w x = some (lastOf cx) ∧ Occ (lastOf cx).1 (lastOf cx).2 (w.models[kx]!).rootItems ∧
+      Occ (lastOf cx).1 (lastOf cx).2 ((opCopy S V w p x pos).1.models[kx]!).rootItems :=
+  opCopy_source_kept S V w p x pos hok kx cx hx hnd
+
+theorem C13_copy_keeps_tree (S : Spec) (V : Env) (w : World) (p x : Nat) (pos : Option Nat) (hw : w.wf) :
+    (opCopy S V w p x pos).1.wf := opCopy_wf S V w p x pos hw
+
+theorem C13_copied_identifiables_and_references_findable (S : Spec) (V : Env) (vOk : Nat) (w : World) (p x : Nat) (pos : Option Nat)
+    (k : Nat) (cp : List (Hdr × Items)) (ver : Nat) (xh : Hdr) (xkids : Items) (q : Nat) (nh : Hdr) (nk : Items) (n' : Nat)
+    (nk1 : Items) (idx' : List (Bytes × Nat)) (rs' : List (Bytes × List Nat)) (hw : WInv S vOk w) (hr : WRInv S w)
+    (hc : CopyOk S V w p x pos k cp ver xh xkids q nh nk n' nk1 idx' rs')
+    (hpaths : CopyPathsOk S (w.models[k]!).index (pathOfChain S cp) nh nk) :
+    (∀ e ∈ entries S (.elem nh nk1 .nil) (pathOfChain S cp), idxGet idx' e.1 = some e.2) ∧
+    (∀ e ∈ refEntries S (.elem nh nk1 .nil), e.2 ∈ refsGet rs' e.1) :=
+  opCopy_findable S V vOk w p x pos hw hr k cp ver xh xkids q nh nk n' nk1 idx' rs' hc hpaths
+
+theorem C13_copy_index_exact (S : Spec) (V : Env) (vOk : Nat) (w : World) (p x : Nat) (pos : Option Nat)
+    (k : Nat) (cp : List (Hdr × Items)) (ver : Nat) (xh : Hdr) (xkids : Items) (q : Nat) (nh : Hdr) (nk : Items) (n' : Nat)
+    (nk1 : Items) (idx' : List (Bytes × Nat)) (rs' : List (Bytes × List Nat)) (hw : WInv S vOk w)
+    (hc : CopyOk S V w p x pos k cp ver xh xkids q nh nk n' nk1 idx' rs')
+    (hpaths : CopyPathsOk S (w.models[k]!).index (pathOfChain S cp) nh nk) :
+    idx' = (w.models[k]!).index ++ entries S (.elem nh nk1 .nil) (pathOfChain S cp) :=
+  opCopy_index S V vOk w p x pos hw k cp ver xh xkids q nh nk n' nk1 idx' rs' hc hpaths
+
+theorem C13_same_version_copy_keeps_index_exact (S : Spec) (V : Env) (vOk : Nat) (hH : IdxHyp S V vOk) (hR : RefWF S) (w : World)
+    (p x : Nat) (pos : Option Nat) (hw : WInv S vOk w) (hr : WRInv S w) (kx : Nat) (cx : List (Hdr × Items))
+    (hx : locate w x = some (kx, cx)) (hnamed : itemName S (lastOf cx).1 (lastOf cx).2 ≠ none)
+    (hall : ∀ k cp ver, locate w p = some (k, cp) → minVersion V (w.models[k]!) cp = some ver →
+      AllCompat S ver (lastOf cx).1 (lastOf cx).2) :
+    WInv S vOk (opCopy S V w p x pos).1 ∧ WRInv S (opCopy S V w p x pos).1 :=
+  opCopy_inv_same_version S V vOk hH hR w p x pos hw hr kx cx hx hnamed hall
+
+/-- negation witness (known finding c04:container-move-copy-collision): the copy of an element without item name whose named
+children collide with existing siblings leaves two elements under one path; the world is built by a plain history -/
+theorem C13_witness_unnamed_copy_collides (vOk : Nat) : ¬ WInv copySpec vOk (opCopy copySpec nameEnv copyW 0 1 none).1 :=
+  not_winv_after_unnamed_copy vOk
 
 /-! non-vacuity: the unique-name search appends `_1`, `_2`, … -/
 example : (uniqueName [([47, 97], 1), ([47, 97, 95, 49], 2)] [] [97] 5 0).1 = [97, 95, 50] := by decide   -- "a" -> "a_2"
